@@ -130,6 +130,8 @@ func main() {
 		cmdSched(os.Args[2:])
 	case "iosched":
 		cmdIOSched(os.Args[2:])
+	case "riosched":
+		cmdRIOSched(os.Args[2:])
 	case "lazy":
 		cmdLazy(os.Args[2:])
 	case "faulttree":
